@@ -194,12 +194,14 @@ def translate(repo, print_shapes=False):
     _need(_re_compile_arg(mod, '_re_ident_or_num') == RE_IDENT_NUM, '_re_ident_or_num pattern changed')
 
     fn = _find(mod, ast.FunctionDef, 'escape_string')
-    # body: result = s ; (result = result.replace(A, B))* ; return result   -- any chain length
+    # body: result = s ; (result = result.replace(A, B))* ;
+    #       for c in _BIDI_CONTROLS: if c in result: result = result.replace(c, '\\u{:04x}'.format(ord(c))) ;
+    #       return result
     body = [n for n in fn.body]
-    _need(len(body) >= 2 and isinstance(body[0], ast.Assign) and ast.unparse(body[0]) == 'result = s'
+    _need(len(body) >= 3 and isinstance(body[0], ast.Assign) and ast.unparse(body[0]) == 'result = s'
           and ast.unparse(body[-1]) == 'return result', 'escape_string: frame')
     table = []
-    for n in body[1:-1]:
+    for n in body[1:-2]:
         ok = (isinstance(n, ast.Assign) and ast.unparse(n.targets[0]) == 'result'
               and isinstance(n.value, ast.Call) and ast.unparse(n.value.func) == 'result.replace'
               and len(n.value.args) == 2 and not n.value.keywords
@@ -209,15 +211,25 @@ def translate(repo, print_shapes=False):
         _need(len(a) == 1, 'escape_string: pattern is not a single character')
         table.append((ord(a), cps(b)))
     G['g_ql_escape_table'] = table
+    loop = body[-2]
+    _need(isinstance(loop, ast.For) and ast.unparse(loop) ==
+          "for c in _BIDI_CONTROLS:\n    if c in result:\n        "
+          "result = result.replace(c, '\\\\u{:04x}'.format(ord(c)))",
+          'escape_string: the loop over _BIDI_CONTROLS is not the modelled one: ' + ast.unparse(loop))
+    bd = _assign(mod, '_BIDI_CONTROLS').value
+    _need(isinstance(bd, ast.Constant) and isinstance(bd.value, str), '_BIDI_CONTROLS: not a str literal')
+    _need(all(0x100 <= ord(ch) < 0x10000 for ch in bd.value), '_BIDI_CONTROLS: outside U+0100..U+FFFF')
+    G['g_ql_escape_bidi'] = cps(bd.value)
 
     c = t.shape('quote.quote_literal', _find(mod, ast.FunctionDef, 'quote_literal'))
     _need(len(c) == 2 and c[0] == c[1] and isinstance(c[0], str) and len(c[0]) == 1, 'quote_literal consts')
     G['g_ql_lit_quote'] = ord(c[0])
 
     c = t.shape('quote.dollar_quote_literal', _find(mod, ast.FunctionDef, 'dollar_quote_literal'))
-    # consts: '$$', 0, 16, 10, 10, 16, '${:x}$', 1(-1 is UnaryOp(USub, 1)), 1
-    _need(len(c) == 9 and c[1] == 0 and c[2] == c[5] and c[3] == c[4] and c[7] == 1 and c[8] == 1
-          and isinstance(c[0], str) and isinstance(c[6], str), f'dollar_quote_literal consts {c}')
+    # consts: '$$', 0, 1 (quote[:-1]), 16, 10, 10, 16, '${:x}$', 1 ([::-1]), 1
+    _need(len(c) == 10 and c[1] == 0 and c[2] == 1 and c[3] == c[6] and c[4] == c[5] and c[8] == 1 and c[9] == 1
+          and isinstance(c[0], str) and isinstance(c[7], str), f'dollar_quote_literal consts {c}')
+    c = [c[0], c[1]] + c[3:]
     m = re.fullmatch(r'([^{}]*)\{:x\}([^{}]*)', c[6])
     _need(m is not None, 'dollar_quote_literal: format string')
     G['g_dq_init'] = cps(c[0])
@@ -251,6 +263,9 @@ def translate(repo, print_shapes=False):
     pat = _re_compile_arg(mod, '_NON_PRINTABLE_RE')
     _need(isinstance(pat, str), '_NON_PRINTABLE_RE: not a str pattern')
     G['g_ql_nonprintable'] = _class_ranges(pat, '_NON_PRINTABLE_RE')
+    a = _assign(mod, '_REPR_ESCAPE_RE').value
+    _need(ast.unparse(a) == "re.compile('\\\\\\\\(?:x([89a-f][0-9a-f])|.)', re.DOTALL)",
+          '_REPR_ESCAPE_RE is not the modelled pattern: ' + ast.unparse(a))
     esc = _assign(mod, '_ESCAPES').value
     _need(isinstance(esc, ast.Dict), '_ESCAPES: not a dict literal')
     tab = []
@@ -268,10 +283,9 @@ def translate(repo, print_shapes=False):
     _need(c == [False, '::', '::'], f'ident_to_str consts {c}')
     cls = _find(mod, ast.ClassDef, 'EdgeQLSourceGenerator')
     c = t.shape('codegen.visit_Constant', _find(mod, ast.FunctionDef, 'visit_Constant', cls))
-    _need(len(c) == 6 and c[3] == '\\' and c[2] == c[4] and c[5] == 'r'
-          and all(isinstance(x, str) for x in c), f'visit_Constant consts {c}')
-    G['g_ql_delims'] = [cps(c[0]), cps(c[1]), cps(c[2])]
-    G['g_ql_noraw_delim'] = cps(c[4])
+    _need(len(c) == 8 and c[2] == '\\' and c[3] == 'r' and c[4] == 1 and c[5] == '\\u00' and c[6] == 1 and c[7] == 0
+          and all(isinstance(x, str) for x in c[:4]), f'visit_Constant consts {c}')
+    G['g_ql_delims'] = [cps(c[0]), cps(c[1])]
     c = t.shape('codegen.visit_BytesConstant', _find(mod, ast.FunctionDef, 'visit_BytesConstant', cls))
     _need(c == ["b'", 'utf-8', 'backslashreplace', "'"], f'visit_BytesConstant consts {c}')
     c = t.shape('codegen.visit_Parameter', _find(mod, ast.FunctionDef, 'visit_Parameter', cls))
@@ -422,7 +436,7 @@ def emit(G):
     ranges('g_ql_nonprintable', G['g_ql_nonprintable'])
     pairs('g_qlb_escapes', G['g_qlb_escapes'])
     strs('g_ql_delims', G['g_ql_delims'])
-    d('g_ql_noraw_delim', 'list N', _l(G['g_ql_noraw_delim']))
+    d('g_ql_escape_bidi', 'list N', _l(G['g_ql_escape_bidi']))
     for k in ('g_kw_unreserved', 'g_kw_partial', 'g_kw_future', 'g_kw_current', 'g_kw_combined'):
         strs(k, G[k])
     d('g_pg_lit_quote', 'N', _n(G['g_pg_lit_quote']))
